@@ -246,6 +246,7 @@ func main() {
 			writeValidateFilter(*leafOut, bt, f)
 			writeIncludeCell(*leafOut, bt, f)
 			writeApplyGC(*leafOut, bt, f)
+			writeModifyCell(*leafOut, bt, f)
 		}
 	}
 	sort.Strings(f.Unavailable)
